@@ -225,6 +225,8 @@ class Tr:
                 return self.arr_binop(E('i', '0', n='0%nat', ival=0), a, '-', n)
             self.refuse(n, 'unary minus of a %s' % a.ty)
         if isinstance(n, ast.Attribute) and n.attr == 'T':
+            if isinstance(n.value, ast.Name):
+                self.fresh.discard(n.value.id)          # .T is a view: a later in-place write would be shared
             a = self.expr(n.value)
             if a.ty in ('m', 'fm'):
                 return E('fm', '(fun i_ j_ => %s)' % self.elt2(a, 'j_', 'i_'), shape=(a.shape[1], a.shape[0]))
@@ -411,6 +413,8 @@ class Tr:
         if a.ty in ('v', 'fv') and isinstance(sl, ast.Tuple) and len(sl.elts) == 2 and isinstance(sl.elts[0], ast.Slice) \
                 and sl.elts[0].lower is None and sl.elts[0].upper is None and sl.elts[0].step is None \
                 and isinstance(sl.elts[1], ast.Constant) and sl.elts[1].value is None:
+            if isinstance(base, ast.Name):
+                self.fresh.discard(base.id)             # a[:, None] is a view
             return E('col', self.to_list(a, n))
         if a.ty == 'fm':
             if isinstance(sl, ast.Tuple) and len(sl.elts) == 2 and not any(isinstance(x, ast.Slice) for x in sl.elts):
@@ -774,6 +778,8 @@ class Tr:
                 idxs = [sl] if isinstance(sl, ast.Name) else (list(sl.elts) if isinstance(sl, ast.Tuple) else None)
                 if idxs is None or not all(isinstance(x, ast.Name) for x in idxs) or arr not in self.pending:
                     self.refuse(b, 'accumulation target')
+                if not all(x.id in self.env and self.env[x.id].ty == 'i' and (self.env[x.id].n or '').startswith('n_') for x in idxs):
+                    self.refuse(b, 'accumulation index that is not (yet) bound through index_of_node')
                 e = self.expr(b.value)
                 node['adds'].append((arr, [x.id for x in idxs], self.as_q(e, b.value), b))
                 continue
